@@ -415,3 +415,204 @@ Proof.
   destruct (is_suffix nonce' (pw ++ nonce)); cbn [andb]; [|split; [intros [? H]; discriminate | discriminate]].
   destruct (utf8_valid _); split; try discriminate; try (intros [? H]; discriminate); eauto.
 Qed.
+
+(* ================= the toy cipher of the correspondence model is lawful ================= *)
+Lemma overhead_bounds p : (11 <= overhead p <= 66)%nat.
+Proof. destruct p; cbn; lia. Qed.
+
+Lemma toy_block_length k p pl : (length pl + 3 <= k)%nat -> length (toy_block k p pl) = k.
+Proof. intro H. unfold toy_block. cbn [app length]. rewrite app_length, repeat_length. lia. Qed.
+
+Lemma toy_dec_block k p pl : (length pl <= k - overhead p)%nat -> (overhead p <= k)%nat ->
+  toy_dec k p (toy_block k p pl) = Some pl.
+Proof.
+  intros H Hk. pose proof (overhead_bounds p) as Ho.
+  pose proof (toy_block_length k p pl ltac:(lia)) as HL. unfold toy_dec. rewrite HL.
+  unfold toy_block. cbn [app]. rewrite Nat.eqb_refl, Z.eqb_refl. cbn [andb].
+  assert (E : Z.of_nat (length pl) / 256 * 256 + Z.of_nat (length pl) mod 256 = Z.of_nat (length pl)).
+  { pose proof (Z.div_mod (Z.of_nat (length pl)) 256 ltac:(lia)). lia. }
+  rewrite E, Nat2Z.id. destruct (Nat.leb_spec (length pl) (k - overhead p)); [|lia].
+  f_equal. rewrite firstn_app, firstn_all, Nat.sub_diag. cbn [firstn]. apply app_nil_r.
+Qed.
+
+Lemma toy_dec_bad k p : toy_dec k p (bad_block k) = None.
+Proof.
+  unfold bad_block. destruct k as [|[|[|k]]]; cbn [repeat toy_dec]; try reflexivity.
+  destruct p; cbn [tag Z.eqb]; rewrite andb_false_r; reflexivity.
+Qed.
+
+Lemma toy_enc_dec_law k : enc_dec_law unit k (toy_enc k) (toy_dec k).
+Proof.
+  intros p r b H. pose proof (overhead_bounds p) as Ho. unfold toy_enc.
+  destruct (Nat.leb_spec (length b) (k - overhead p)); [|lia].
+  exists (toy_block k p b). split; [reflexivity|]. split.
+  - apply toy_block_length. lia.
+  - apply toy_dec_block; lia.
+Qed.
+
+Lemma toy_dec_len_law k : dec_len_law k (toy_dec k).
+Proof.
+  intros p c b H. unfold toy_dec in H. destruct c as [|t [|h [|l rest]]]; try discriminate.
+  destruct (_ && _ && _) eqn:E; [|discriminate]. inversion H; subst b.
+  apply andb_true_iff in E as [_ E]. apply Nat.leb_le in E. rewrite firstn_length. lia.
+Qed.
+
+(* ================= the correspondence model satisfies the oracle ================= *)
+Lemma padding_of_alg_of pol : padding_of_alg (alg_of pol) = Some (padding_of pol).
+Proof. destruct pol; reflexivity. Qed.
+
+Lemma run_roundtrip kz pol pw n n' :
+  66 < kz -> Z.of_nat (length (pw ++ n)) < 2 ^ 32 ->
+  run (RoundTrip kz pol pw n n') =
+  Z.of_nat (block_count (4 + length pw + length n) (Z.to_nat kz - overhead (padding_of pol)) * Z.to_nat kz)
+  :: encode (expected pw n n').
+Proof.
+  intros Hk Hsz. cbn [run]. pose proof (overhead_bounds (padding_of pol)) as Ho.
+  destruct (decrypt_encrypt unit (Z.to_nat kz) (toy_enc (Z.to_nat kz)) (toy_dec (Z.to_nat kz)) (padding_of pol)
+              (fun _ => tt) pw n n' (toy_enc_dec_law _) (toy_dec_len_law _) ltac:(lia) Hsz) as [ct [E [HL HD]]].
+  rewrite E. unfold decrypt_token. rewrite padding_of_alg_of, HD, HL. reflexivity.
+Qed.
+
+Definition blk (k : nat) (p : padding) (o : option (list Z)) : list Z :=
+  match o with Some pl => toy_block k p pl | None => bad_block k end.
+
+Lemma blk_length k p tr : (66 < k)%nat -> forallb (tr_ok k p) tr = true ->
+  Forall (fun c => length c = k) (map (blk k p) tr).
+Proof.
+  intros Hk H. pose proof (overhead_bounds p) as Ho. induction tr as [|o tr IH]; cbn [map]; constructor.
+  - cbn [forallb] in H. apply andb_true_iff in H as [H _]. destruct o as [pl|]; cbn [blk tr_ok] in *.
+    + apply Nat.leb_le in H. apply toy_block_length. lia.
+    + apply repeat_length.
+  - apply IH. cbn [forallb] in H. apply andb_true_iff in H as [_ H]. exact H.
+Qed.
+
+Lemma dec_blocks_tr k p tr T : (66 < k)%nat -> forallb (tr_ok k p) tr = true ->
+  dec_blocks (toy_dec k) p (map (blk k p) tr ++ T) =
+  match all_plain tr with
+  | Some plain => match dec_blocks (toy_dec k) p T with Some t => Some (plain ++ t) | None => None end
+  | None => None
+  end.
+Proof.
+  intros Hk H. pose proof (overhead_bounds p) as Ho. induction tr as [|o tr IH]; cbn [map app all_plain].
+  - destruct (dec_blocks (toy_dec k) p T); reflexivity.
+  - cbn [forallb] in H. apply andb_true_iff in H as [H1 H2]. cbn [dec_blocks].
+    destruct o as [pl|]; cbn [blk tr_ok] in *.
+    + apply Nat.leb_le in H1. rewrite toy_dec_block by lia. rewrite IH by exact H2.
+      destruct (all_plain tr); [|reflexivity].
+      destruct (dec_blocks (toy_dec k) p T); [rewrite app_assoc; reflexivity | reflexivity].
+    + rewrite toy_dec_bad. reflexivity.
+Qed.
+
+Lemma synth_eq k p cl tr :
+  synth k p cl tr = concat (map (blk k p) tr) ++ repeat 0 (cl - length (concat (map (blk k p) tr))).
+Proof. reflexivity. Qed.
+
+Lemma run_crafted kz p null clen tr n' : valid (Crafted kz p null clen tr n') = true ->
+  run (Crafted kz p null clen tr n') =
+  match (if null || negb (clen mod kz =? 0) then None
+         else match all_plain tr with Some plain => ref_parse plain n' | None => None end) with
+  | Some pw => 0 :: pw
+  | None => [1]
+  end.
+Proof.
+  intro Hv. cbn [valid] in Hv.
+  apply andb_true_iff in Hv as [Hv Hcomplete]. apply andb_true_iff in Hv as [Hv Hcover].
+  apply andb_true_iff in Hv as [Hv Htr]. apply andb_true_iff in Hv as [Hk Hclen].
+  apply Z.ltb_lt in Hk. apply Z.leb_le in Hclen. apply Z.leb_le in Hcover.
+  cbn [run]. destruct null; cbn [orb]; [reflexivity|].
+  set (k := Z.to_nat kz) in *. set (cl := Z.to_nat clen).
+  assert (Hkk : (66 < k)%nat) by (unfold k; lia).
+  pose proof (blk_length k p tr Hkk Htr) as HF.
+  pose proof (length_concat_blocks k _ HF) as Hbody. rewrite map_length in Hbody.
+  assert (Hsl : length (synth k p cl tr) = cl).
+  { rewrite synth_eq, app_length, repeat_length, Hbody. unfold cl, k. nia. }
+  assert (Emod : Z.of_nat (cl mod k) = clen mod kz).
+  { rewrite Nat2Z.inj_mod. unfold cl, k. rewrite !Z2Nat.id by lia. reflexivity. }
+  unfold password_decrypt.
+  destruct (clen mod kz =? 0) eqn:Em; cbn [negb].
+  2:{ apply Z.eqb_neq in Em. unfold private_decrypt. rewrite Hsl.
+      destruct (Nat.eqb_spec (cl mod k) 0) as [E0|E0]; [rewrite E0 in Emod; cbn in Emod; lia|].
+      rewrite orb_true_r. reflexivity. }
+  apply Z.eqb_eq in Em.
+  assert (Hm : (cl mod k = 0)%nat) by lia.
+  apply Nat.div_exact in Hm; [|lia]. set (m := (cl / k)%nat) in *.
+  (* the zero tail of the synthetic cipher text is a whole number of blocks *)
+  destruct (split_blocks k (m - length tr) (repeat 0 (cl - length (concat (map (blk k p) tr))))) as [T [ET [HFT HLT]]].
+  { rewrite repeat_length, Hbody. unfold cl, k in *. nia. }
+  assert (Esynth : synth k p cl tr = concat (map (blk k p) tr ++ T)).
+  { rewrite synth_eq, concat_app, <- ET. reflexivity. }
+  assert (HFall : Forall (fun c => length c = k) (map (blk k p) tr ++ T)) by (apply Forall_app; split; assumption).
+  rewrite Esynth.
+  rewrite (private_decrypt_blocks k (toy_dec k) p _ (toy_dec_len_law k) ltac:(lia) HFall).
+  rewrite dec_blocks_tr by assumption.
+  destruct (all_plain tr) as [plain|] eqn:Ea; [|reflexivity].
+  (* complete transcript: it covers every block, so there is no tail *)
+  apply Z.eqb_eq in Hcomplete.
+  assert (Hmt : length tr = m).
+  { assert (clen / kz = Z.of_nat m).
+    { unfold m. rewrite Nat2Z.inj_div. unfold cl, k. rewrite !Z2Nat.id by lia. reflexivity. }
+    lia. }
+  destruct T as [|? ?]; [|cbn [length] in HLT; lia]. cbn [dec_blocks]. rewrite app_nil_r.
+  rewrite <- Esynth, Hsl. rewrite parse_plain_ref.
+  - destruct (ref_parse plain n'); reflexivity.
+  - assert (Hd : dec_blocks (toy_dec k) p (map (blk k p) tr ++ []) = Some (plain ++ [])).
+    { rewrite dec_blocks_tr by assumption. rewrite Ea. reflexivity. }
+    apply (dec_blocks_len k (toy_dec k) p) in Hd; [|apply toy_dec_len_law].
+    rewrite !app_nil_r in Hd. rewrite map_length in Hd. unfold cl, k in *. nia.
+Qed.
+
+Theorem oracle_holds c : valid c = true -> known c = 0 -> oracle c (run c) = true.
+Proof.
+  destruct c as [kz pol pw n n'|kz p null clen tr n']; intros Hv Hk.
+  - cbn [valid] in Hv. apply andb_true_iff in Hv as [Hv Hsz]. apply andb_true_iff in Hv as [Hkz Hutf].
+    apply Z.ltb_lt in Hkz. apply Z.ltb_lt in Hsz.
+    assert (Hsz' : Z.of_nat (length (pw ++ n)) < 2 ^ 32) by (rewrite app_length; lia).
+    rewrite run_roundtrip by assumption. cbn [oracle].
+    pose proof (overhead_bounds (padding_of pol)) as Ho.
+    apply andb_true_iff. split.
+    + apply Z.eqb_eq. rewrite Nat2Z.inj_mul, block_count_Z by lia.
+      rewrite Nat2Z.inj_sub by lia. rewrite Z2Nat.id by lia.
+      f_equal. f_equal. lia.
+    + cbn [known] in Hk. destruct (list_eqb n n') eqn:En.
+      * apply list_eqb_eq in En. subst n'. rewrite expected_same by exact Hutf. cbn [encode]. apply list_eqb_refl.
+      * destruct (suffix_class pw n n') eqn:Hc; [discriminate|].
+        destruct (expected pw n n') as [pw'| |] eqn:Ee.
+        -- assert (Hex : exists pw', expected pw n n' = Ok pw') by eauto.
+           apply expected_other in Hex; [congruence | exact En].
+        -- reflexivity.
+        -- exfalso. revert Ee. unfold expected. destruct (is_suffix _ _); [destruct (utf8_valid (firstn _ _))|]; discriminate.
+  - rewrite run_crafted by exact Hv. cbn [oracle]. apply list_eqb_refl.
+Qed.
+
+(* ================= the code before the fixes, and the known class ================= *)
+(* fix 6c0db8b8: a 100 byte "cipher text" under a 1024 bit key panics in the block loop *)
+Theorem legacy_block_loop_refuted :
+  Legacy.password_decrypt 128 (toy_dec 128) false Pkcs1 (Some (repeat 7 100)) [] = Panic /\
+  password_decrypt 128 (toy_dec 128) Pkcs1 (Some (repeat 7 100)) [] = Err.
+Proof. vm_compute. split; reflexivity. Qed.
+
+(* fix 72720213: a well-encrypted plain text (length prefix 3, "abc") shorter than the 32 byte nonce *)
+Theorem legacy_short_plain_refuted :
+  let secret := Some (toy_block 128 Pkcs1 (le32 3 ++ [97; 98; 99])) in
+  let nonce := repeat 5 32 in
+  Legacy.password_decrypt 128 (toy_dec 128) true Pkcs1 secret nonce = Panic /\
+  password_decrypt 128 (toy_dec 128) Pkcs1 secret nonce = Err.
+Proof. vm_compute. split; reflexivity. Qed.
+
+(* fix e300a6dc: the token of two policies named another algorithm than the padding it was encrypted with *)
+Theorem legacy_algorithm_refuted :
+  padding_of_alg (Legacy.alg_of Aes128Sha256RsaOaep) <> Some (padding_of Aes128Sha256RsaOaep) /\
+  padding_of_alg (Legacy.alg_of Aes256Sha256RsaPss) <> Some (padding_of Aes256Sha256RsaPss) /\
+  (forall pol, padding_of_alg (alg_of pol) = Some (padding_of pol)) /\
+  exists ct, password_encrypt unit 128 (toy_enc 128) (padding_of Aes256Sha256RsaPss) (fun _ => tt) [112; 119] [1; 2; 3] = Ok ct /\
+             decrypt_token 128 (toy_dec 128) (Legacy.alg_of Aes256Sha256RsaPss) (Some ct) [1; 2; 3] = Err.
+Proof.
+  split; [discriminate|]. split; [discriminate|]. split; [exact padding_of_alg_of|].
+  eexists. split; vm_compute; reflexivity.
+Qed.
+
+Definition known_witness : case := RoundTrip 128 Basic256Sha256 [112; 119] [97; 98; 99; 100] [99; 100].
+Theorem known_1_refuted :
+  valid known_witness = true /\ known known_witness = 1 /\ oracle known_witness (run known_witness) = false /\
+  run known_witness = [128; 0; 112; 119; 97; 98].
+Proof. vm_compute. repeat split; reflexivity. Qed.
